@@ -30,7 +30,12 @@ def dynamic_features(ctx, rule):
                         found.append((f, n, nm))
                     if k[0] == "ext" and k[1] == "builtins.getattr":
                         if len(n.args) < 2 or not (isinstance(n.args[1], ast.Constant) and isinstance(n.args[1].value, str)):
-                            found.append((f, n, "getattr with a non-constant name"))
+                            # reading an attribute of an object that is not the package's own (the argparse namespace, a
+                            # pathlib / os object) cannot produce a package callable the call graph does not know
+                            rk = ctx.res.kinds(n.args[0], f, mod) if n.args else set()
+                            foreign = bool(rk) and all(k2[0] in ("extinst", "str", "bytes", "int", "float", "list", "dict", "set", "tuple", "path", "file", "hash") for k2 in rk)
+                            if not foreign:
+                                found.append((f, n, "getattr with a non-constant name"))
             elif isinstance(n.func, ast.Attribute):
                 for k in ctx.res.kinds(n.func, f, mod):
                     if k[0] == "ext" and k[1] in FORBIDDEN_EXT:
